@@ -20,6 +20,17 @@ class by class, and with a from-scratch reachability walk of the graph:
           reference) is unreachable: mutating it and changing leaves of objects
           only reachable through it is silent for everybody
 
+  early   the legacy registration is made on the bare root - by the public
+          deferred=True argument or by the @on_trait_change decorator on methods
+          of the root (post_init False / True) - and the root's links get their
+          values afterwards; same laws, in particular removal stops all calls
+  sigs    the other documented legacy signatures are registered too:
+          handler(object, name, new) logs the projection of the 4-argument
+          voice always; handler(new) / handler(name, new) - where supported: first
+          link an Instance or a ':' link - are called for a final attribute
+          iff the 4-argument voice is, also below a first link set to None
+  late    deferred=True on the fully built tree (known finding, own stratum)
+
 Every step is followed by a probe phase that changes the final attribute on
 every node of the tree and on recently detached nodes.  See DESIGN.md 4 / C16.
 """
@@ -28,7 +39,8 @@ import itertools
 import weakref
 
 from traits.api import (
-    Any, HasTraits, Int, Instance, List, Dict, Set, Str, push_exception_handler,
+    Any, HasTraits, Int, Instance, List, Dict, Set, Str, on_trait_change,
+    push_exception_handler,
 )
 from traits.observation.api import (
     push_exception_handler as obs_push_exception_handler,
@@ -51,7 +63,22 @@ META = {
              "1-2 FURTHER handler owners whose bound methods are registered under the same names "
              "on the same root through both APIs and which are dropped and collected while the "
              "registration stands (every live owner must log exactly what the primary logs; the "
-             "survivors must keep following the graph and stop on removal) x random tree x 16-20 (thorough: 16-28) random operations (link reassignment to fresh subtree / None, "
+             "survivors must keep following the graph and stop on removal) x in a 15% stratum an "
+             "EARLY legacy registration: made on the bare root by on_trait_change(..., "
+             "deferred=True) or by the @on_trait_change(name) decorator on methods of the root's "
+             "class (post_init False / True), the root's links being assigned afterwards (keys "
+             "get '+early-reg'); re-registration after removal is a plain call x in a 16% stratum "
+             "the remaining legacy SIGNATURES registered alongside: handler(object, name, new) "
+             "must log the projection of every 4-argument call; handler(new) and handler(name, "
+             "new) - registered where the first link is an Instance link or a ':' link, the "
+             "combinations they support - must be called with (new) / (name, new) for a final "
+             "attribute iff the 4-argument voice is, stay silent after removal, and be called "
+             "as often as the 0-argument voice for deeper links and items; assignments to the "
+             "first '.' link (40% of them to None there; a third of these histories draw a name "
+             "whose first link is an Instance '.' link) are answered by one call or one logged "
+             "TraitError per voice and are followed by probes of the detached subtree x in a 3% "
+             "stratum a LATE deferred=True registration on the fully built tree (known finding "
+             "late-deferred/observe-only) x random tree x 16-20 (thorough: 16-28) random operations (link reassignment to fresh subtree / None, "
              "whole-container assignment, every mutating list/dict/set method, re-insertion of a "
              "detached subtree root, on attached on-path, attached off-path and detached nodes; "
              "mutation - mostly insertion of fresh subtrees - of a container OBJECT that an earlier "
@@ -87,7 +114,20 @@ META = {
                   # the objects they created (attached / detached / after removal)
                   "dyn_defaults_by_hookup": 500, "dyn_nonempty_matched": 2500,
                   "dyn_detached_nonvacuous_silent": 3500,
-                  "dyn_after_remove_nonvacuous_silent": 1500},
+                  "dyn_after_remove_nonvacuous_silent": 1500,
+                  # early registrations (deferred=True / decorator) and their removal;
+                  # *_seq_*: first link a List or a Set
+                  "early_registrations_deferred": 120, "early_registrations_deco-pre": 120,
+                  "early_registrations_deco-post": 120, "early_nonempty_matched": 8000,
+                  "early_after_remove_nonvacuous_silent": 2500,
+                  "early_seq_after_remove_nonvacuous_silent": 1000,
+                  # 1-/2-/3-argument legacy signatures; dst_*: handler(new), handler(name, new)
+                  "sigs_final_nonempty_matched": 8000, "sigs_after_remove_nonvacuous_silent": 2400,
+                  "sigs_op_reports_matched": 1700,
+                  "dst_final_nonempty_matched": 5500, "dst_dot_final_nonempty_matched": 3000,
+                  "dst_detached_nonvacuous_silent": 9000, "dst_link0_cleared": 300,
+                  "dst_cleared_detached_nonvacuous_silent": 900,
+                  "late_deferred_registrations": 55, "late_deferred_nonempty_matched": 400},
         "thorough": {"evaluations": 8000000, "final_nonempty_matched": 500000,
                      "link_reported_matched": 35000, "link_colon_silent_matched": 35000,
                      "item_dot_matched": 40000, "item_colon_silent_matched": 40000,
@@ -101,7 +141,18 @@ META = {
                      "multi_after_remove_nonvacuous_silent": 8000,
                      "dyn_defaults_by_hookup": 6000, "dyn_nonempty_matched": 30000,
                      "dyn_detached_nonvacuous_silent": 40000,
-                     "dyn_after_remove_nonvacuous_silent": 18000},
+                     "dyn_after_remove_nonvacuous_silent": 18000,
+                     "early_registrations_deferred": 1400, "early_registrations_deco-pre": 1400,
+                     "early_registrations_deco-post": 1400, "early_nonempty_matched": 100000,
+                     "early_after_remove_nonvacuous_silent": 30000,
+                     "early_seq_after_remove_nonvacuous_silent": 12000,
+                     "sigs_final_nonempty_matched": 100000,
+                     "sigs_after_remove_nonvacuous_silent": 28000,
+                     "sigs_op_reports_matched": 20000,
+                     "dst_final_nonempty_matched": 65000, "dst_dot_final_nonempty_matched": 36000,
+                     "dst_detached_nonvacuous_silent": 100000, "dst_link0_cleared": 3600,
+                     "dst_cleared_detached_nonvacuous_silent": 10000,
+                     "late_deferred_registrations": 650, "late_deferred_nonempty_matched": 4800},
     },
     "assumptions": [
         "graphs are tree-shaped: every object is referenced from at most one place",
@@ -123,6 +174,16 @@ META = {
         "on_trait_change documentation does not mention deletion",
         "a whole-container assignment whose old and new contents are equal (both empty) is not a "
         "change for either system (equality comparison mode); only agreement is demanded there",
+        "'early' stratum: deferred=True means 'hook up when the link is first read or set'; the "
+        "registration is therefore made before the root's links have values (what the decorator "
+        "does at construction); a link of the root that was never assigned nor read is reported "
+        "with whatever (empty) old value both systems agree on",
+        "'sigs' stratum: handler(new) / handler(name, new) on a first '.' link that is a container "
+        "(or a group containing one) answer every change with a TraitError and do not re-hook, by "
+        "design ('signature is incompatible with a change to an intermediate trait'): not "
+        "registered there; on an Instance first '.' link an assignment is answered by one call for "
+        "the new destination or one logged TraitError per voice (at most two are taken out of the "
+        "exception channel), neither is judged; the final-attribute law is",
     ],
 }
 
@@ -393,6 +454,15 @@ def make_deep_pairs():
 PAIRS = make_pairs()
 DEEP_PAIRS = make_deep_pairs()
 
+
+def _dst_dot(pairs):
+    return [p for p in pairs
+            if p.seps[0] == "." and all(KIND[a] == "inst" for a in p.path[0])]
+
+
+DST_DOT_PAIRS = _dst_dot(PAIRS)
+DST_DOT_DEEP_PAIRS = _dst_dot(DEEP_PAIRS)
+
 # --------------------------------------------------------------------------
 # recorders
 
@@ -405,6 +475,9 @@ class Rec:
         self.Z = [0]     # legacy 0-argument call count
         self.O = []      # observe trait-change events
         self.C = []      # observe container events
+        # further legacy signatures ("sigs" stratum): handler(new), handler(name, new),
+        # handler(object, name, new)
+        self.V = {1: [], 2: [], 3: []}
         # further owner objects whose bound methods are registered under the
         # same names on the same root ("multi" stratum); None once dropped
         self.followers = []
@@ -414,6 +487,8 @@ class Rec:
         self.Z[0] = 0
         del self.O[:]
         del self.C[:]
+        for v in self.V.values():
+            del v[:]
         for f in self.followers:
             if f is not None:
                 f.clear()
@@ -427,6 +502,35 @@ class Rec:
 
     def m0(self):
         self.Z[0] += 1
+
+    def m1(self, new):
+        self.V[1].append(enc(new))
+
+    def m2(self, name, new):
+        self.V[2].append((name, enc(new)))
+
+    def m3(self, obj, name, new):
+        self.V[3].append((enc(obj), name, enc(new)))
+
+    def any_calls(self):
+        return bool(self.L or self.Z[0] or self.O or self.C
+                    or self.V[1] or self.V[2] or self.V[3])
+
+    def extra_handlers(self, flavour):
+        """The 1-, 2- and 3-argument legacy handlers."""
+        if flavour == "method":
+            return self.m1, self.m2, self.m3
+        V = self.V
+
+        def f1(new):
+            V[1].append(enc(new))
+
+        def f2(name, new):
+            V[2].append((name, enc(new)))
+
+        def f3(obj, name, new):
+            V[3].append((enc(obj), name, enc(new)))
+        return f1, f2, f3
 
     def mo(self, event):
         if isinstance(event, TraitChangeEvent):
@@ -529,19 +633,48 @@ def build(spec, pool):
         n.dyn = (pool, spec["dyn"], pool.sink)
     pool[spec["s"]] = n
     for a in ATTRS:
-        if a not in spec:
-            continue
-        val = spec[a]
-        k = KIND[a]
-        if k == "inst":
-            setattr(n, a, None if val is None else build(val, pool))
-        elif k == "dict":
-            setattr(n, a, {key: build(s, pool) for key, s in val.items()})
-        elif k == "set":
-            setattr(n, a, {build(s, pool) for s in val})
-        else:
-            setattr(n, a, [build(s, pool) for s in val])
+        if a in spec:
+            assign_link(n, a, spec[a], pool)
     return n
+
+
+def assign_link(n, a, val, pool):
+    """n.a = the value described by the literal val (fresh objects)."""
+    k = KIND[a]
+    if k == "inst":
+        setattr(n, a, None if val is None else build(val, pool))
+    elif k == "dict":
+        setattr(n, a, {key: build(s, pool) for key, s in val.items()})
+    elif k == "set":
+        setattr(n, a, {build(s, pool) for s in val})
+    else:
+        setattr(n, a, [build(s, pool) for s in val])
+
+
+# "early" registration modes: the legacy handlers are methods of the observed root
+# itself, registered by the @on_trait_change decorator while the object is constructed
+# (both post_init flavours), before any link has a value.
+_DECO_ROOTS = {}
+
+
+def deco_root_class(base, legacy, post_init):
+    key = (base, legacy, post_init)
+    cls = _DECO_ROOTS.get(key)
+    if cls is None:
+        class DecoRoot(base):
+            @on_trait_change(legacy, post_init=post_init)
+            def _c16_h4(self, obj, name, old, new):
+                r = self.__dict__.get("_c16_rec")
+                if r is not None:
+                    r.m4(obj, name, old, new)
+
+            @on_trait_change(legacy, post_init=post_init)
+            def _c16_h0(self):
+                r = self.__dict__.get("_c16_rec")
+                if r is not None:
+                    r.m0()
+        _DECO_ROOTS[key] = cls = DecoRoot
+    return cls
 
 
 # --------------------------------------------------------------------------
@@ -574,8 +707,36 @@ class History:
         self.pair = pair
         # flavour = "<handler flavour>+<node flavour>", e.g. "fn+plain", "method+eq"
         self.flavour = flavour
-        hf, _, nf = flavour.partition("+")
+        #   optional further parts: "+deferred" / "+deco-pre" / "+deco-post" (early
+        #   registration mode), "+sigs" (1-/2-/3-argument legacy voices as well)
+        parts = flavour.split("+")
+        hf = parts[0]
+        nf = parts[1] if len(parts) > 1 else ""
+        opts = set(parts[2:])
         self.nf = nf or "plain"
+        # registration mode of the legacy 4-/0-argument handlers:
+        #   "call"      root.on_trait_change(h, name) on the fully built tree
+        #   "deferred"  root.on_trait_change(h, name, deferred=True) on the bare root,
+        #               the links of the root are assigned afterwards
+        #   "deco-pre" / "deco-post"  methods of the root decorated with
+        #               @on_trait_change(name, post_init=False/True); links assigned afterwards
+        #   "deferred-late"  deferred=True on the fully built tree (a stratum of its own:
+        #               known finding late-deferred/observe-only)
+        self.reg_mode = ([m for m in ("deferred-late", "deferred", "deco-pre", "deco-post")
+                          if m in opts] or ["call"])[0]
+        # the early registration is still to be made
+        self.early_pending = self.reg_mode not in ("call", "deferred-late")
+        self.early_live = False     # the latest registration is (was) the early one
+        self.late_pending = self.reg_mode == "deferred-late"
+        self.late_live = False      # the latest registration is (was) the late deferred one
+        # "sigs": the remaining documented legacy signatures are registered as well
+        self.sigs = "sigs" in opts
+        alts0, sep0 = pair.links[0]
+        # handler(new) / handler(name, new) are by design incompatible with a change of a
+        # first '.' link that has no unique destination (container links: TraitError on
+        # every change, no re-hooking); they are registered where they are supported
+        self.dst_ok = self.sigs and (sep0 == ":" or all(KIND[a] == "inst" for a in alts0))
+        self.dst_cleared_now = False   # the last operation set the first '.' link to None
         # "multi<k>-<fn|method>": k further owner objects register their bound
         # methods under the same names; they are dropped (collected) mid-history
         self.n_extra = 0
@@ -586,8 +747,26 @@ class History:
         self.pool_at_drop = None      # serials existing at the last such drop
         self.pool = Pool(self.nf)
         self.rec = Rec()
-        self.root = build(root_spec, self.pool)
         self.h4, self.h0, self.ho = self.rec.handlers(hf)
+        self.h1, self.h2, self.h3 = self.rec.extra_handlers(hf)
+        if self.reg_mode in ("call", "deferred-late"):
+            self.root = build(root_spec, self.pool)
+            self.root_links = {}
+        else:
+            # bare root first; its links (assigned or dynamic-default ones alike) are
+            # assigned once the early registration stands
+            rc = self.pool.cls
+            if self.reg_mode != "deferred":
+                rc = deco_root_class(rc, pair.legacy, self.reg_mode == "deco-post")
+            self.root = rc(ser=root_spec["s"])
+            if "t" in root_spec:
+                self.root.tag = root_spec["t"]
+            self.pool[root_spec["s"]] = self.root
+            self.root_links = dict(root_spec.get("dyn", {}))
+            self.root_links.update({a: root_spec[a] for a in ATTRS if a in root_spec})
+            if self.reg_mode != "deferred":
+                self.root.__dict__["_c16_rec"] = self.rec
+                self.h4, self.h0 = self.root._c16_h4, self.root._c16_h0
         self.rec.followers = [Rec() for _ in range(self.n_extra)]
         # nodes created by a dynamic default that the hook-up of one of the
         # systems (not a read by the harness) materialised
@@ -627,15 +806,40 @@ class History:
     # -- registration --------------------------------------------------------
     def register(self):
         del EXC[:]
+        early = self.early_pending
+        self.early_pending = False
+        self.early_live = early
         try:
-            self.root.on_trait_change(self.h4, self.pair.legacy)
-            self.root.on_trait_change(self.h0, self.pair.legacy)
-            self.root.observe(self.ho, self.pair.observe)
+            if early:
+                # the registration precedes the values of the root's links
+                if self.reg_mode == "deferred":
+                    self.root.on_trait_change(self.h4, self.pair.legacy, deferred=True)
+                    self.root.on_trait_change(self.h0, self.pair.legacy, deferred=True)
+                # (decorator modes: registered while the root was constructed)
+                self.root.observe(self.ho, self.pair.observe)
+                for a in ATTRS:
+                    if a in self.root_links:
+                        assign_link(self.root, a, self.root_links[a], self.pool)
+                self.count("early_registrations_" + self.reg_mode)
+            else:
+                kw = {}
+                if self.late_pending:
+                    kw["deferred"] = True
+                    self.count("late_deferred_registrations")
+                self.late_live, self.late_pending = self.late_pending, False
+                self.root.on_trait_change(self.h4, self.pair.legacy, **kw)
+                self.root.on_trait_change(self.h0, self.pair.legacy, **kw)
+                self.root.observe(self.ho, self.pair.observe)
             for f in self.rec.live_followers():
                 # bound methods are held weakly by both systems; none is kept here
                 self.root.on_trait_change(f.m4, self.pair.legacy)
                 self.root.on_trait_change(f.m0, self.pair.legacy)
                 self.root.observe(f.mo, self.pair.observe)
+            if self.sigs:
+                self.root.on_trait_change(self.h3, self.pair.legacy)
+                if self.dst_ok:
+                    self.root.on_trait_change(self.h1, self.pair.legacy)
+                    self.root.on_trait_change(self.h2, self.pair.legacy)
         except Exception as e:
             raise Violation("register/raised/%s" % type(e).__name__,
                             "registration of %r raised %r" % (self.pair.desc(), e))
@@ -654,6 +858,11 @@ class History:
                 self.root.on_trait_change(f.m4, self.pair.legacy, remove=True)
                 self.root.on_trait_change(f.m0, self.pair.legacy, remove=True)
                 self.root.observe(f.mo, self.pair.observe, remove=True)
+            if self.sigs:
+                self.root.on_trait_change(self.h3, self.pair.legacy, remove=True)
+                if self.dst_ok:
+                    self.root.on_trait_change(self.h1, self.pair.legacy, remove=True)
+                    self.root.on_trait_change(self.h2, self.pair.legacy, remove=True)
         except Exception as e:
             raise Violation("remove/raised/%s" % type(e).__name__,
                             "removal of %r raised %r" % (self.pair.desc(), e))
@@ -712,7 +921,7 @@ class History:
         what = "[%s <-> %s] handler owner #%d dropped and collected" % (
             self.pair.legacy, self.pair.observe, j)
         r = self.rec
-        if r.L or r.Z[0] or r.O or r.C:
+        if r.any_calls():
             raise Violation("multi/calls-on-drop", "%s: calls %r" % (what, (r.L + r.O + r.C)[:3]))
         if self.registered:
             self.drops += 1
@@ -846,6 +1055,11 @@ class History:
         if r.O or r.C:
             raise Violation("after-remove/observe", "%s: observe handler called after removal: %r "
                             "(%s)" % (what, (r.O + r.C)[:3], self.pair.observe))
+        for arity in (1, 2, 3):
+            if r.V[arity]:
+                raise Violation("after-remove/legacy%d" % arity,
+                                "%s: legacy %d-argument handler called after removal: %r (%s)"
+                                % (what, arity, r.V[arity][:3], self.pair.legacy))
 
     # -- probes -----------------------------------------------------------------
     def probe_phase(self):
@@ -897,6 +1111,13 @@ class History:
                             self.count("after_remove_nonvacuous_silent")
                             if self.drops:
                                 self.count("multi_after_remove_nonvacuous_silent")
+                            if self.early_live:
+                                self.count("early_after_remove_nonvacuous_silent")
+                                if KIND[self.pair.path[0][0]] in ("list", "set"):
+                                    self.count("early_seq_after_remove_nonvacuous_silent")
+                                self.sig("probe-after-remove-early", f, self.reg_mode)
+                            if self.sigs:
+                                self.count("sigs_after_remove_nonvacuous_silent")
                             self.sig("probe-after-remove", f)
                         if s in self.dyn_hook_nodes and s in self.ever_final \
                                 and f in self.pair.finals:
@@ -918,7 +1139,14 @@ class History:
                     raise Violation("final/stray-calls/%s" % self.trigger,
                                     "%s: calls for other names: legacy4 %r observe %r"
                                     % (what, Ll + Li + Lx, Ol + Ox + r.C))
+                if self.sigs:
+                    self.judge_sigs_probe(expected, what, is_att, s, f)
                 if expected:
+                    if self.late_live:
+                        self.count("late_deferred_nonempty_matched")
+                    if self.early_live:
+                        self.count("early_nonempty_matched")
+                        self.sig("probe-early", f, self.reg_mode, s in self.reinserted)
                     if self.drops:
                         self.count("multi_post_drop_nonempty_matched")
                         if s not in self.pool_at_drop:
@@ -941,6 +1169,8 @@ class History:
                         if s in self.ever_final and f in self.pair.finals:
                             # was called for while attached, silent now
                             self.count("detached_nonvacuous_silent")
+                            if self.early_live:
+                                self.count("early_detached_nonvacuous_silent")
                             if s in self.dyn_hook_nodes:
                                 self.count("dyn_detached_nonvacuous_silent")
                             self.sig("probe-detached", f, self.trigger)
@@ -951,11 +1181,91 @@ class History:
                             self.sig("probe-below-stale", f, self.trigger)
         r.clear()
 
+    # -- the 1-, 2- and 3-argument legacy signatures ("sigs" stratum) ---------------
+    def judge_sigs_probe(self, expected, what, is_att, s, f):
+        """A probe: every signature is called iff the 4-argument one is (which the
+        caller has already matched with observe and the model), with its own
+        projection of (object, name, old, new)."""
+        r = self.rec
+        want = {3: [(o, n, nw) for o, n, _, nw in expected]}
+        if self.dst_ok:
+            want[1] = [nw for _, _, _, nw in expected]
+            want[2] = [(n, nw) for _, n, _, nw in expected]
+        for arity in sorted(want):
+            got = r.V[arity]
+            if got != want[arity]:
+                how = ("legacy%d-only" % arity if len(got) > len(want[arity]) else
+                       "legacy%d-missing" % arity if len(got) < len(want[arity]) else
+                       "legacy%d-payload" % arity)
+                raise Violation("final/%s/%s" % (how, self.trigger),
+                                "%s: legacy %d-argument handler calls %r, legacy4/observe/model "
+                                "%r (%s)" % (what, arity, got, expected, self.pair.legacy))
+        if expected:
+            self.count("sigs_final_nonempty_matched")
+            if self.dst_ok:
+                self.count("dst_final_nonempty_matched")
+                if self.pair.seps[0] == ".":
+                    self.count("dst_dot_final_nonempty_matched")
+            self.sig("probe-sigs", f, "called", self.dst_ok, self.pair.seps[0])
+        elif not is_att and s in self.ever_final and f in self.pair.finals:
+            self.count("sigs_detached_nonvacuous_silent")
+            if self.dst_ok:
+                self.count("dst_detached_nonvacuous_silent")
+                if self.dst_cleared_now:
+                    # detached by `root.link = None` on the first '.' link
+                    self.count("dst_cleared_detached_nonvacuous_silent")
+                self.sig("probe-sigs-detached", f, self.trigger, self.pair.seps[0])
+
+    def dst_link0(self, on_path, i, sep, mode, attr):
+        """Is this operation an assignment to the first '.' link while the
+        handler(new) / handler(name, new) voices stand?"""
+        return (self.dst_ok and self.registered and on_path and i == 0 and sep == "."
+                and mode == "assign" and KIND[attr] == "inst")
+
+    def tolerate_dst_errors(self):
+        """`root.link = value` on the first '.' link: when the new value offers no
+        unique final destination (None, a container further down, several finals)
+        the 1-/2-argument voices answer with a logged TraitError each, by
+        design; anything beyond these two stays in the channel."""
+        left = 2
+        for e in list(EXC):
+            if left and e[0] == "legacy" and e[1] == "TraitError":
+                EXC.remove(e)
+                left -= 1
+                self.count("dst_no_destination_errors")
+
+    def judge_sigs_op(self, what, step, z, link0):
+        r = self.rec
+        want3 = [(o, n, nw) for o, n, _, nw in r.L]
+        if r.V[3] != want3:
+            raise Violation("sig/legacy3-differs-from-legacy4/%s" % step,
+                            "%s: legacy 3-argument handler calls %r, 4-argument %r"
+                            % (what, r.V[3], r.L))
+        if r.L:
+            self.count("sigs_op_reports_matched")
+        if not self.dst_ok:
+            return
+        for arity in (1, 2):
+            n = len(r.V[arity])
+            if link0:
+                # reported by a call for the new destination, or by the logged error
+                bad = n > 1
+            else:
+                # deeper links and items: same machinery as the 0-argument voice
+                bad = n != z
+            if bad:
+                raise Violation("sig/legacy%d-count/%s" % (arity, step),
+                                "%s: legacy %d-argument handler called %d times %r, 0-argument "
+                                "%d times" % (what, arity, n, r.V[arity][:3], z))
+        if z and not link0:
+            self.count("dst_op_reports_matched")
+
     # -- operations ---------------------------------------------------------------
     def apply(self, op):
         """Execute one literal operation and judge it.  Returns False when the
         operation is not applicable to the current state (shrinker replays)."""
         name = op[0]
+        self.dst_cleared_now = False
         if name == "unregister":
             if not self.registered:
                 return False
@@ -996,6 +1306,9 @@ class History:
         before = kids(m, attr)
         before_ids = [ser(x) for x in before]
         old_obj = m.__dict__.get(attr)
+        # never assigned nor read so far (possible on the root of an early registration:
+        # neither system reads a link it is not yet interested in)
+        unmaterialised = attr not in m.__dict__
         old_enc = enc(old_obj) if mode != "item" else None
         old_copy = plain_copy(old_obj) if mode != "item" else None
         r = self.rec
@@ -1010,6 +1323,14 @@ class History:
                             "operation %r raised %r" % (op, e))
         self.nops += 1
         self.absorb_defaults((s, attr))
+        link0 = self.dst_link0(on_path, i, sep, mode, attr)
+        self.dst_cleared_now = False
+        if link0:
+            self.tolerate_dst_errors()
+            self.count("dst_link0_assignments")
+            if old_obj is not None and m.__dict__.get(attr) is None:
+                self.dst_cleared_now = True
+                self.count("dst_link0_cleared")
         self.check_exc(opclass)
         # a distinct object that compares equal to the one it replaces (node
         # flavour "eq"; trivially, an empty container replacing an empty one)
@@ -1071,6 +1392,8 @@ class History:
         nC = len(r.C)
         # (1) no operation of the alphabet changes a final attribute
         self.compare("final", Lf, Of, [], what)
+        if self.sigs:
+            self.judge_sigs_op(what, step, z, link0)
         if Lx or Ox:
             raise Violation("link/stray-calls/%s" % step,
                             "%s: calls for unexpected names: legacy4 %r observe %r" % (what, Lx, Ox))
@@ -1090,6 +1413,10 @@ class History:
                 expected = None
             elif on_path and sep == "." and changed:
                 expected = [(enc(m), attr, old_enc, new_enc)]
+                if unmaterialised and KIND[attr] != "inst" and len(Ll) == 1:
+                    # the old value is the default materialised by the assignment
+                    # itself: whatever (empty) value both systems agree on
+                    expected = [(enc(m), attr, Ll[0][2], new_enc)]
             else:
                 expected = []
             self.compare("link", Ll, Ol, expected, what, step)
@@ -1178,6 +1505,7 @@ class History:
             raise Violation("raised/%s/%s" % (type(exc).__name__, opclass),
                             "operation %r raised %r" % (op, exc))
         self.nops += 1
+        self.dst_cleared_now = False
         self.absorb_defaults()
         self.check_exc(opclass)
         self.last_stale = op[1]
@@ -1209,6 +1537,11 @@ class History:
         self.compare("final", Lf, Of, [], what)
         self.compare("link", Ll + Lx, Ol + Ox, [], what, step)
         z, nC = r.Z[0], len(r.C)
+        for arity in (1, 2, 3):
+            if r.V[arity]:
+                raise Violation("item/reported-by-legacy%d/%s" % (arity, step),
+                                "%s: legacy %d-argument handler calls %r"
+                                % (what, arity, r.V[arity][:3]))
         if z or nC or Li:
             who = "legacy0" if z else ("observe" if nC else "legacy4")
             raise Violation("item/reported-by-%s/%s" % (who, step),
@@ -1465,7 +1798,7 @@ class History:
         kind = KIND[attr]
         if kind == "inst":
             cur = m.__dict__.get(attr)
-            if cur is not None and rng.random() < 0.25:
+            if cur is not None and rng.random() < (0.4 if self.sigs else 0.25):
                 return ("inst", s, attr, None)
             return ("inst", s, attr, new())
         eqf = self.nf in ("eq", "eqd")
@@ -1733,6 +2066,34 @@ def run_history(ctx, h_index, pairs):
         hf = "multi%d-%s" % (n_extra, hf)
         ctx.count("histories_multi")
     flavour = hf + "+" + nf
+    # strata of their own random stream (the other histories stay what they were):
+    #  early registration - the legacy handlers are registered on the bare root, by the
+    #    public deferred=True argument or by the @on_trait_change decorator (post_init
+    #    False / True), and the root's links are assigned afterwards;
+    #  sigs - the 1-, 2- and 3-argument legacy signatures are registered as well
+    #  late deferred - deferred=True on the fully built tree: the members a List / Dict /
+    #    Set first link has at that moment are never hooked (known finding), hence a
+    #    stratum and a key of its own
+    rng2 = ctx.rng("strata", h_index)
+    x = rng2.random()
+    late = False
+    if n_extra == 0 and nf != "eqd":
+        if x < 0.15:
+            flavour += "+" + rng2.choice(("deferred", "deco-pre", "deco-post"))
+            ctx.count("histories_early")
+        elif x < 0.18 and nf != "dyn":
+            # (no unread dynamic defaults here: this registration reads nothing, the
+            # harness would be the first reader)
+            flavour += "+deferred-late"
+            late = True
+            ctx.count("histories_late_deferred")
+    if rng2.random() < 0.16 and not late:
+        flavour += "+sigs"
+        ctx.count("histories_sigs")
+        if rng2.random() < 0.4:
+            # first link an Instance '.' link: the one the 1-/2-argument link handler serves
+            pair = rng2.choice(DST_DOT_PAIRS if ctx.tier != "thorough"
+                               else DST_DOT_PAIRS + DST_DOT_DEEP_PAIRS)
     counter = itertools.count(1)
     if rng.random() < 0.15 and nf != "dyn":
         root_spec = {"s": 0}
@@ -1773,6 +2134,16 @@ def run_history(ctx, h_index, pairs):
         # a failure after a handler owner was collected while the registration stood is
         # a class of its own (weakref-callback bookkeeping), whatever operation shows it
         key = v.key + ("+owner-dropped" if h is not None and h.drops else "")
+        # so is one under (or after the removal of) a registration made before the
+        # root's links had values
+        key += "+early-reg" if h is not None and h.early_live else ""
+        if h is not None and h.late_live:
+            # known finding: what a container first link holds when a deferred=True
+            # registration is made is never hooked - every manifestation is "observe
+            # reports, legacy does not" (final attribute, link or item level)
+            kp = v.key.split("/")
+            key = ("late-deferred/observe-only" if len(kp) > 1 and kp[1] == "observe-only"
+                   else key + "+late-deferred")
         if ctx.viol_per_key.get(key, 0) < 2:
             try:
                 spec2, ops2 = shrink(pair, flavour, root_spec, ops, v.key)
